@@ -15,6 +15,10 @@ def setup(J):
                             continue
                         jobs.append(J.with_delay_fallback(J.wf("C18", "gjoin", k, buf, 2, "cmd", oracles=o, tier=tier, events_dep=False, extra=sep + ("|" + mod if mod else ""),
                                                                id=f"C18-k{k}-b{buf}-sep{ord(sep)}-{mod or 'plain'}")))
+        # separators of more than one character (the documented use: "join: -I ", "join:, ")
+        for k in (2, 3):
+            for sep in (" -I ", ", ", "::"):
+                jobs.append(J.with_delay_fallback(J.wf("C18", "gjoin", k, 1, 2, "cmd", oracles=o, tier=tier, events_dep=False, extra=sep, id=f"C18-k{k}-long-sep-{'-'.join(str(ord(c)) for c in sep)}")))
         # members given with ABSOLUTE paths (they resolve from anywhere: no "../" in front)
         for k, sep in ((2, " "), (1, ",")):
             jobs.append(J.with_delay_fallback(J.wf("C18", "gjoin", k, 1, 2, "cmd", oracles=["nohang", "clean", "c18", "one-outcome"], tier=tier, events_dep=False, extra=sep, abs_src=True, id=f"C18-k{k}-sep{ord(sep)}-absolute-members")))
@@ -26,5 +30,5 @@ def setup(J):
             for seps in ((",", "+"), (" ", ":")):
                 jobs.append(J.with_delay_fallback(J.wf("C18", "gjoin2", k, 1, 2, "cmd", oracles=o, tier=tier, events_dep=False, extra=seps[0] + "|" + seps[1], id=f"C18-two-ports-k{k}-sep{ord(seps[0])}-{ord(seps[1])}"), 1))
         return {"level": "model_checking", "stages": [lambda ctx, prev: jobs, J.maporder_stage("C18", o, tier, graphs=("gjoin2",), per_job=True)],
-                "rule": "src(k files) -> StreamToSubStream -> {i:x|join:SEP[|modifier]} for k in 0..3 (4; i.e. beyond the buffer size 1-2), SEP in {' ', ',', ':'}, modifier in {none, basename, %.txt}; every Mazurkiewicz trace (the drain in NewTask races with the upstream still sending); plus a task with TWO joined in-ports fed by two sub-streams; plus members given with absolute paths; plus members arriving in reverse name order; plus the two-port scenarios again with every other order of each range-over-map site forced (the task's in-port / sub-stream maps); oracle: exactly one task, argument string at the exec seam = member paths in emission order joined by SEP, each member resolves from the task's working directory, audit Upstream key set = member paths, one terminal outcome",
+                "rule": "src(k files) -> StreamToSubStream -> {i:x|join:SEP[|modifier]} for k in 0..3 (4; i.e. beyond the buffer size 1-2), SEP in {' ', ',', ':'} and the longer separators {' -I ', ', ', '::'}, modifier in {none, basename, %.txt}; every Mazurkiewicz trace (the drain in NewTask races with the upstream still sending); plus a task with TWO joined in-ports fed by two sub-streams; plus members given with absolute paths; plus members arriving in reverse name order; plus the two-port scenarios again with every other order of each range-over-map site forced (the task's in-port / sub-stream maps); oracle: exactly one task, argument string at the exec seam = member paths in emission order joined by SEP, each member resolves from the task's working directory, audit Upstream key set = member paths, one terminal outcome",
                 "assumptions": J.BASE_ASSUMPTIONS}
